@@ -37,8 +37,8 @@ def one_spec(draw, tier):
 
 @st.composite
 def cases(draw, tier):
-    if draw(st.integers(0, 29 if tier == 'quick' else 11)) == 0:
-        n = 3 if tier == 'quick' else 8
+    if draw(st.integers(1, 48 if tier == 'quick' else 12)) == 7:
+        n = 10 if tier == 'quick' else 16       # few batches, many specs each: the cost of a batch is three interpreter start-ups
         return {'kind': 'batch', 'specs': [draw(one_spec(tier)) for _ in range(n)], 'bin': draw(st.booleans())}
     return {'kind': 'single', 'spec': draw(one_spec(tier))}
 
@@ -209,6 +209,10 @@ def check_batch(case, ctx):
         if r is None: continue
         spec = r[0]
         cfgs = [c for c in all_configs(spec) if c[3] == 'float64' and c[0] in ('real', 'log', 'viterbi')]
+        if len(case['specs']) > 4:
+            # keep each j_precompute=True run together with its j_precompute=False twin (needed for the D15 routing)
+            keep = [c for c in cfgs if (c[0], c[1]) in (('real', 'newton'), ('log', 'fixed-point'), ('log', 'newton'), ('viterbi', 'fixed-point'), ('real', 'fixed-point'))]
+            cfgs = [c for c in keep if not c[2] or c[0] == 'real']
         items.append({'spec': _jsonable(spec), 'configs': [list(c) for c in cfgs]})
     if not items:
         ctx.skip('batch: no admissible spec'); return
@@ -268,9 +272,12 @@ def check_bin_script(spec, ctx):
         torch.set_default_dtype(torch.float64)
         fgg, info = gen_fgg.build(spec, 'real', torch.float64)
         j = fggs.fgg_to_json(fgg)
+        for f_ in fgg.factors.values(): f_.weights.requires_grad_()
         with warnings.catch_warnings():
             warnings.simplefilter('ignore')
-            z0 = fggs.sum_product(fgg, method='fixed-point', semiring=fggs.RealSemiring(dtype=torch.float64), tol=1e-10, kmax=2000).to_dense().reshape(-1).tolist()
+            zt = fggs.sum_product(fgg, method='fixed-point', semiring=fggs.RealSemiring(dtype=torch.float64), tol=1e-10, kmax=2000).to_dense()
+            z0 = zt.detach().reshape(-1).tolist()
+        differentiable = bool(zt.requires_grad)     # the script's -G path calls backward() unconditionally
     except Exception as e:
         ctx.violation('bin-setup-failed', f'{type(e).__name__}: {e}'); return
     finally:
